@@ -124,7 +124,7 @@ func c11run(c *Ctx, idx int, log *mon.Log, w mon.W, alpha []modeCall, steps []c1
 			state = append(state, mc.next(state[st.target]))
 		} else {
 			if aff != t {
-				c.R.Violation(idx, "set-returns-receiver", "C11/set-returns-receiver/"+mc.name, "a Set call did not return its receiver", map[string]any{"sequence": hist})
+				c.R.Violation(idx, "set-returns-receiver", "C11/set-returns-receiver/"+strings.ReplaceAll(mc.name, " ", "_"), "a Set call did not return its receiver", map[string]any{"sequence": hist})
 				return false
 			}
 			state[st.target] = mc.next(state[st.target])
@@ -132,7 +132,7 @@ func c11run(c *Ctx, idx int, log *mon.Log, w mon.W, alpha []modeCall, steps []c1
 		for i, l := range loggers {
 			want := state[i]
 			if l.JSONMode() != (want == FJSON) || l.ColorMode() != (want == FColor) {
-				c.R.Violation(idx, "getters", "C11/getters/"+mc.name, fmt.Sprintf("after %v logger #%d reports JSONMode=%v ColorMode=%v, the state machine says %v", hist, i, l.JSONMode(), l.ColorMode(), want), map[string]any{"sequence": hist})
+				c.R.Violation(idx, "getters", "C11/getters/"+strings.ReplaceAll(mc.name, " ", "_"), fmt.Sprintf("after %v logger #%d reports JSONMode=%v ColorMode=%v, the state machine says %v", hist, i, l.JSONMode(), l.ColorMode(), want), map[string]any{"sequence": hist})
 				return false
 			}
 			evs := capture(log, func() { l.Info("shape-probe", "k", 1) })
@@ -147,7 +147,7 @@ func c11run(c *Ctx, idx int, log *mon.Log, w mon.W, alpha []modeCall, steps []c1
 				if i != st.target && !(created && i == len(loggers)-1) {
 					who = "another-logger"
 				}
-				c.R.Violation(idx, "record-shape", "C11/record-shape/"+mc.name+"/"+who, fmt.Sprintf("after %v logger #%d emits %s (classified %v), the state machine says %v", hist, i, q(clip(string(evs[0].Data), 120)), got, want), map[string]any{"sequence": hist})
+				c.R.Violation(idx, "record-shape", "C11/record-shape/"+strings.ReplaceAll(mc.name, " ", "_")+"/"+who, fmt.Sprintf("after %v logger #%d emits %s (classified %v), the state machine says %v", hist, i, q(clip(string(evs[0].Data), 120)), got, want), map[string]any{"sequence": hist})
 				return false
 			}
 		}
